@@ -345,7 +345,7 @@ class TransformedPrior(Prior):
         if size is None:
             repeat = lambda x: x
         else:
-            repeat = lambda x: np.repeat(x, size)
+            repeat = lambda x: np.full(size, x)
         raw_samples = [bp.sample(size) if isinstance(bp, Prior) else repeat(bp)
                        for bp in self.base_prior]
         if size is None:
